@@ -1,8 +1,8 @@
 package yang
 
-// Fixed case for an OPEN finding of C09 (see KNOWN_FINDINGS.txt): a type
-// statement written in a submodule does not see the top-level typedefs of the
-// module the submodule belongs to, nor those of a sibling submodule.
+// Fixed case (once an open finding, now repaired): a type statement written in
+// a submodule sees the top-level typedefs of the module the submodule belongs
+// to and those of a sibling submodule.
 
 import (
 	"fmt"
@@ -21,7 +21,7 @@ func TestGovcBoundedC09SubmoduleScope(t *testing.T) {
 		}
 	}
 	if errs := ms.Process(); len(errs) > 0 {
-		fmt.Printf("GOVC-FAIL name=c09-submodule-sees-its-module a type statement in a submodule names a top-level typedef of its module (and of a sibling submodule): %v\n", errs)
+		fmt.Printf("GOVC-FAIL name=c09-type-resolution a type statement in a submodule names a top-level typedef of its module (and of a sibling submodule): %v\n", errs)
 	}
 	fmt.Printf("GOVC-BOUNDED name=c09-submodule-scope bound=1_fixed_set evaluations=1 distinct=1\n")
 }
